@@ -1585,3 +1585,30 @@ func selfUpdate(st *ssa.Store) bool {
 	}
 	return loadsSame(st.Val, 0)
 }
+
+// srcOfExpr renders the smallest call / conversion expression that contains the value's position.
+func srcOfExpr(f *ssa.Function, v ssa.Value) string {
+	var root ast.Node
+	for q := f; q != nil && root == nil; q = q.Parent() {
+		root = q.Syntax()
+	}
+	pos := v.Pos()
+	if root == nil || !pos.IsValid() {
+		return ""
+	}
+	best := ""
+	var bestSpan token.Pos = 1 << 40
+	ast.Inspect(root, func(n ast.Node) bool {
+		if n == nil {
+			return false
+		}
+		if pos < n.Pos() || pos > n.End() {
+			return false
+		}
+		if x, ok := n.(*ast.CallExpr); ok && x.End()-x.Pos() < bestSpan {
+			best, bestSpan = types.ExprString(x), x.End()-x.Pos()
+		}
+		return true
+	})
+	return best
+}
